@@ -156,6 +156,13 @@ pub fn systematic() -> Vec<Case> {
     add("fk-self-ref-same-stmt", vec![e(None)], vec![ins("e", 2, vec![vec![i(6), i(7)], vec![i(7), nul()]])]);
     add("fk-self-ref-delete-both", vec![e(None)], vec![ins("e", 2, vec![vec![i(1), nul()]]), ins("e", 2, vec![vec![i(2), i(1)]]), del("e", None)]);
     add("fk-self-ref-cascade", vec![e(Some(Act::Cascade))], vec![ins("e", 2, vec![vec![i(1), nul()]]), ins("e", 2, vec![vec![i(2), i(1)]]), ins("e", 2, vec![vec![i(3), i(2)]]), ins("e", 2, vec![vec![i(4), nul()]]), del("e", eqc(0, 1))]);
+    // two FK columns of one child table to the same parent column, with different ON DELETE actions
+    let m2 = |od1: Option<Act>, od2: Option<Act>| TableC { fks: vec![fk(1, "p", 0, "id", od1, None), fk(2, "p", 0, "id", od2, None)], ..tbl("m", vec![pkc("id"), c("s"), c("r")]) };
+    for (nm, a1, a2) in [("cascade-noaction", Some(Act::Cascade), None), ("cascade-restrict", Some(Act::Cascade), Some(Act::Restrict)), ("noaction-cascade", None, Some(Act::Cascade)), ("restrict-cascade", Some(Act::Restrict), Some(Act::Cascade))] {
+        // row m1 references parent 1 through s and parent 2 through r; m2 only parent 3 through r
+        add(&format!("fk-two-cols-{nm}-delete-second-ref"), vec![p(), m2(a1, a2)], vec![prow(), ins("m", 3, vec![vec![i(1), i(1), i(2)], vec![i(2), nul(), i(3)]]), del("p", eqc(0, 2)), del("p", eqc(0, 3)), del("p", eqc(0, 1))]);
+        add(&format!("fk-two-cols-{nm}-delete-first-ref"), vec![p(), m2(a1, a2)], vec![prow(), ins("m", 3, vec![vec![i(1), i(1), i(2)], vec![i(2), i(3), nul()]]), del("p", eqc(0, 1)), del("p", eqc(0, 3)), del("p", eqc(0, 2))]);
+    }
     // two levels
     let g = |od: Option<Act>| TableC { fks: vec![fk(1, "c", 0, "id", od, None)], ..tbl("g", vec![pkc("id"), c("cid")]) };
     add("fk-two-level-cascade", vec![p(), ch(Some(Act::Cascade), None), g(Some(Act::Cascade))], vec![prow(), ins("c", 2, vec![vec![i(1), i(1)], vec![i(2), i(2)]]), ins("g", 2, vec![vec![i(1), i(1)], vec![i(2), i(2)]]), del("p", eqc(0, 1))]);
@@ -337,6 +344,7 @@ fn flags(schema: &[TableC], st: &St, kind: &str, pre: &Dump, h: &Hctx, check_ix:
         if casc && kind != "fk-child" { f.push("cascade".into()); }
         let noact = match st { St::Delete { .. } => refs.iter().any(|fk| fk.on_delete.is_none()), St::Update { .. } => refs.iter().any(|fk| fk.on_update.is_none()), _ => false };
         if noact && kind == "fk-parent" { f.push("no-action-clause".into()); }
+        if schema.iter().any(|x| { let acts: Vec<Option<Act>> = x.fks.iter().filter(|fk| fk.parent == tname).map(|fk| match st { St::Update { .. } => fk.on_update, _ => fk.on_delete }).collect(); acts.windows(2).any(|w| w[0] != w[1]) }) && kind != "fk-child" { f.push("mixed-actions".into()); }
         if t.fks.iter().any(|fk| fk.parent == tname) { f.push("self-ref".into()); }
         if schema.iter().any(|x| x.fks.iter().any(|fk| fk.table_level && (x.name == tname || fk.parent == tname))) { f.push("table-level".into()); }
         if kind == "fk-child" && t.fks.iter().any(|fk| !fk.table_level && schema.iter().find(|x| x.name == fk.parent).map(|pt| !pt.cols[fk.pcols[0]].pk).unwrap_or(false)) { f.push("to-unique-col".into()); }
